@@ -17,7 +17,10 @@ type solverSpec struct {
 
 var solvers = []solverSpec{
 	{"z3-5.1.0", func(t int) []string { return []string{"z3-new", "-in", "-T:" + itoa(t)} }},
+	// E-matching only: the VCs carry explicit triggers; MBQI often diverges on them
+	{"z3-5.1.0-ematch", func(t int) []string { return []string{"z3-new", "-in", "-T:" + itoa(t), "smt.mbqi=false"} }},
 	{"z3-4.8.12", func(t int) []string { return []string{"z3", "-in", "-T:" + itoa(t)} }},
+	{"z3-4.8.12-ematch", func(t int) []string { return []string{"z3", "-in", "-T:" + itoa(t), "smt.mbqi=false"} }},
 	{"cvc5-1.0", func(t int) []string {
 		return []string{"cvc5", "--lang=smt2", "--tlimit=" + itoa(t*1000), "--produce-models", "-"}
 	}},
@@ -81,7 +84,7 @@ func solveOne(script string, timeoutS int, thorough bool) (final solveOutcome, a
 				case <-ctx.Done():
 					ch <- solveOutcome{"timeout", s.name, 0, "cancelled"}
 					return
-				case <-time.After(time.Duration(600*i) * time.Millisecond):
+				case <-time.After(time.Duration(400*i) * time.Millisecond):
 				}
 			}
 			ch <- runSolver(ctx, s, script, timeoutS)
